@@ -3,5 +3,6 @@ CONSTANTS
   MaxOrder = 5
   MaxDim = 8
   MaxReq = 100
+  MaxTRReq = 100
 POSTCONDITION TraceAccepted
 CHECK_DEADLOCK FALSE
